@@ -1308,3 +1308,168 @@ func fdOrNil(fd *ast.FuncDecl) *ast.FuncDecl {
 	}
 	return fd
 }
+
+// ---- C13.R15 the four programs of a code set come from the right compile pass ----
+
+// codeToOpcodeSet compiles a type twice: once with plain member names, once with HTML-escaped member names
+// (compileContext.escapeKey). The code set keeps both, and a copy of each for values reached through an interface.
+// Each of the four fields has to descend from the pass its name says: an InterfaceEscapeKeyCode made from the
+// no-escape program writes raw <, > and & in member names of every value held by an interface.
+func c13r15(rc *core.RC) {
+	p := rc.P
+	fd := p.Func("encoder", "Compiler.codeToOpcodeSet")
+	if fd == nil || fd.Body == nil {
+		rc.Unknown("encoder.codeToOpcodeSet", token.NoPos, "function not found")
+		return
+	}
+	info := p.Info(fd)
+	fn := p.FuncName(fd)
+	rc.Touch(fn)
+	// all definitions of each local
+	defs := map[types.Object][]ast.Expr{}
+	ast.Inspect(fd.Body, func(m ast.Node) bool {
+		as, ok := m.(*ast.AssignStmt)
+		if !ok || len(as.Lhs) != len(as.Rhs) {
+			return true
+		}
+		for i, l := range as.Lhs {
+			if o := core.ObjOf(info, l); o != nil {
+				defs[o] = append(defs[o], as.Rhs[i])
+			}
+		}
+		return true
+	})
+	// lineage: "escape", "noescape", or "" (unknown) / "mixed"
+	var lineage func(e ast.Expr, seen map[types.Object]bool) string
+	lineage = func(e ast.Expr, seen map[types.Object]bool) string {
+		e = core.Unparen(e)
+		switch v := e.(type) {
+		case *ast.Ident:
+			o := core.ObjOf(info, v)
+			if o == nil || seen[o] {
+				return ""
+			}
+			seen[o] = true
+			res := ""
+			for _, d := range defs[o] {
+				l := lineage(d, seen)
+				if l == "" {
+					continue
+				}
+				if res != "" && res != l {
+					return "mixed"
+				}
+				res = l
+			}
+			return res
+		case *ast.CallExpr:
+			name := core.CalleeName(info, v)
+			if strings.HasSuffix(name, "Compiler.codeToOpcode") && len(v.Args) >= 1 {
+				esc := "noescape"
+				ast.Inspect(v.Args[0], func(k ast.Node) bool {
+					if kv, ok := k.(*ast.KeyValueExpr); ok {
+						if id, isID := kv.Key.(*ast.Ident); isID && id.Name == "escapeKey" {
+							if c := core.ConstValue(info, kv.Value); c != nil && c.String() == "true" {
+								esc = "escape"
+							}
+						}
+					}
+					return true
+				})
+				return esc
+			}
+			// copies keep the lineage of their operand
+			if len(v.Args) >= 1 && strings.HasPrefix(name, "encoder.") {
+				return lineage(v.Args[0], seen)
+			}
+		}
+		return ""
+	}
+	want := map[string]string{"NoescapeKeyCode": "noescape", "EscapeKeyCode": "escape", "InterfaceNoescapeKeyCode": "noescape", "InterfaceEscapeKeyCode": "escape"}
+	n := 0
+	ast.Inspect(fd.Body, func(m ast.Node) bool {
+		kv, ok := m.(*ast.KeyValueExpr)
+		if !ok {
+			return true
+		}
+		id, ok := kv.Key.(*ast.Ident)
+		if !ok || want[id.Name] == "" {
+			return true
+		}
+		n++
+		got := lineage(kv.Value, map[types.Object]bool{})
+		key := fn + "/" + id.Name + " from-its-own-compile-pass"
+		switch {
+		case got == "":
+			rc.Unknown(key, kv.Pos(), "the value %s could not be traced to a call of codeToOpcode", core.Src(p.Fset, kv.Value))
+		default:
+			rc.Check(got == want[id.Name], key, kv.Pos(), "%s descends from the compile pass with escapeKey=%v (found: the %s pass): the other pass renders the member names the other way, so values reached through an interface would get raw or escaped names at the wrong time", id.Name, want[id.Name] == "escape", got)
+		}
+		return true
+	})
+	if n < 4 {
+		rc.Unknown(fn+"/programs", fd.Pos(), "found %d of the four program fields in the OpcodeSet literal", n)
+	}
+}
+
+// ---- C13.R16 the memo of linked recursive bodies belongs to one compile pass ----
+
+// A type is compiled twice, with plain and with HTML-escaped member names, and the member names are rendered into
+// the opcodes at compile time. linkRecursiveCode gives every recursive reference a jump into a linked copy of the
+// struct's body and remembers the copies per type in a map. That map has to be created by the call (one per pass):
+// kept on the Compiler ("link each type once") the second pass finds the bodies of the first, and the recursive
+// levels of the escaping program run the non-escaping body: raw <, > and & in member names below the root.
+func c13r16(rc *core.RC) {
+	p := rc.P
+	fd := p.Func("encoder", "Compiler.linkRecursiveCode")
+	if fd == nil || fd.Body == nil {
+		rc.Unknown("encoder.linkRecursiveCode", token.NoPos, "function not found")
+		return
+	}
+	info := p.Info(fd)
+	fn := p.FuncName(fd)
+	rc.Touch(fn)
+	n := 0
+	seen := map[types.Object]bool{}
+	ast.Inspect(fd.Body, func(m ast.Node) bool {
+		ix, ok := m.(*ast.IndexExpr)
+		if !ok {
+			return true
+		}
+		t := info.TypeOf(ix.X)
+		if t == nil {
+			return true
+		}
+		mt, isMap := t.Underlying().(*types.Map)
+		if !isMap || !strings.HasSuffix(mt.Elem().String(), "CompiledCode") {
+			return true
+		}
+		key := fn + "/memo-of-linked-bodies created-by-the-call"
+		base := core.Unparen(ix.X)
+		id, isID := base.(*ast.Ident)
+		if !isID {
+			n++
+			rc.Bad(key, ix.Pos(), "the memo of linked recursive bodies is %s, which outlives the call: the two compile passes of a type (plain and escaped member names) would share one body per recursive type", core.Src(p.Fset, base))
+			return true
+		}
+		o := core.ObjOf(info, id)
+		if seen[o] {
+			return true
+		}
+		seen[o] = true
+		n++
+		def := singleDef(info, fd.Body, o)
+		fresh := false
+		switch d := core.Unparen(def).(type) {
+		case *ast.CompositeLit:
+			fresh = true
+		case *ast.CallExpr:
+			fresh = core.IsBuiltin(info, d, "make")
+		}
+		rc.Check(fresh, key, id.Pos(), "the memo of linked recursive bodies (%s) is a map made in this call (found: %s): taken from the compiler or a parameter it is shared by the two compile passes of a type, and the second pass jumps into bodies rendered by the first", id.Name, core.Src(p.Fset, def))
+		return true
+	})
+	if n < 1 {
+		rc.Unknown(fn+"/memo", fd.Pos(), "no map of linked bodies (element type CompiledCode) found")
+	}
+}
